@@ -436,7 +436,10 @@ def make_reqs(tag, info, default):
     if tag == "A":
         return [(1412, [default, opt(info["tt"]), wire_tree(info["tree"])])]
     if tag == "B":
-        return [(1403 if info["writer"] == "legacy" else 1402, [info["force"], info["cs"]])]
+        if info["writer"] == "main":
+            return [(1402, [info["force"], info["cs"]])]
+        # the writers that merge first: the model gets the UNMERGED set (single_write / legacy_merge_write)
+        return [(1421, [info["force"], int(info["writer"] == "legacy"), wire_mset(info["orig"])])]
     if tag == "C":
         return [(1405, [default, [[c, opt(l)] for c, l in info["styles"]], info["ps"]])]
     if tag == "D":
@@ -469,7 +472,8 @@ def dfxp_job(rng, cs, styles, shape, flags, writer=None, force="?"):
     job = {"op": "dfxp_write", "writer": writer, "force": force, "cs": cs}
     if styles:
         job["styles"] = styles
-    return "B", job, {"cs": start_text(want), "force": force or "", "writer": writer, "shape": shape, "flags": flags}
+    return "B", job, {"cs": start_text(want), "force": force or "", "writer": writer, "shape": shape, "flags": flags,
+                      "orig": [[l, [[c[0], c[1], [c[2]]] for c in cues]] for l, cues in cs]}
 
 
 def sami_job(cs, styles, shape, flags):
@@ -740,6 +744,12 @@ def judge(acc, cfg, items, obs, models):
             elif rr_err or not ok2:
                 acc.viol("dfxp-reread-languages", "re-reading the DFXP output gives %r (%s)" % (rr, rr_err), inp, stream=tag)
                 continue
+            if info["writer"] != "main":
+                m, flat = m
+                if flat != info["cs"]:
+                    acc.dis(tag, inp, info["cs"], flat, "the harness's join of equal-span runs differs from model merge_concurrent")
+                    continue
+                acc.count("B_merge_first_writer_model(single_write / legacy_merge_write on the unmerged set)")
             mdoc = m[1] if info["writer"] == "legacy" and m[0] == 0 else m
             mtt = mdoc[0][0] if mdoc[0] else None
             mdivs = [[d[0][0], d[1]] for d in mdoc[1]]
